@@ -75,17 +75,19 @@ def kani_playback(src, h):
     cmd = ['cargo', 'kani', '--harness', h.qual, '--exact', '-Z', 'concrete-playback', '--concrete-playback=inplace',
            '--target-dir', tgt] + list(h.extra)
     rc, out, dt = run(cmd, cwd=pdir, timeout=h.timeout + 1800, mem_gb=48)   # kani-driver loads CBMC's whole JSON trace
-    m = re.search(r'fn (kani_concrete_playback_\w+)', open_all_rs(pdir))
-    if not m:
+    names = sorted(set(re.findall(r'fn (kani_concrete_playback_\w+)', open_all_rs(pdir))))
+    if not names:
         return dict(reproduced=False, output='no concrete playback test generated\n' + out[-1500:], test='')
-    test = m.group(1)
-    body = extract_test(pdir, test)
-    rc2, out2, dt2 = run(['cargo', 'kani', 'playback', '-Z', 'concrete-playback', '--', test], cwd=pdir, timeout=1800)
-    ran = re.search(r'running 1 test', out2) is not None
-    failed = ran and re.search(r'test result: FAILED|panicked at', out2) is not None
-    passed = ran and re.search(r'test result: ok\. 1 passed', out2) is not None
+    # Kani emits one unit test per trace (failed checks AND satisfied covers): run them all, keep a failing one
+    rc2, out2, dt2 = run(['cargo', 'kani', 'playback', '-Z', 'concrete-playback', '--', 'kani_concrete_playback_' + h.name], cwd=pdir, timeout=1800)
+    ran = re.search(r'running \d+ test', out2) is not None
+    failed_names = re.findall(r'test (?:[\w:]+::)?(kani_concrete_playback_\w+) \.\.\. FAILED', out2)
     shutil.rmtree(tgt, ignore_errors=True)
-    return dict(reproduced=bool(failed and not passed), test=body, output=out2[-2500:], ran=ran)
+    if failed_names:
+        body = extract_test(pdir, failed_names[0])
+        k = out2.find('---- ')
+        return dict(reproduced=True, test=body, output=out2[k:k + 2500] if k >= 0 else out2[-2500:], ran=ran, tests=len(names))
+    return dict(reproduced=False, test=extract_test(pdir, names[0]), output=out2[-2500:], ran=ran, tests=len(names))
 
 
 def open_all_rs(root):
